@@ -4,6 +4,7 @@ import (
 	"fmt"
 	"hash/fnv"
 	"sort"
+	"time"
 )
 
 // Violation is one observed breach of a property.
@@ -142,6 +143,8 @@ type Engine struct {
 	Crashy bool
 	// Exhaustive reports whether the tier enumerated a finite space completely.
 	Exhaustive func(tier string) bool
+	// RunTimeout is the watchdog limit of one run (default 60 s).
+	RunTimeout time.Duration
 	// ShrinkBudget caps shrink executions.
 	ShrinkBudget int
 	// WallCap is the per-tier wall-clock cap in seconds (only reduces runs).
